@@ -10,7 +10,9 @@ Tie: T + K.
   K  `run`: (a) every generated formula, Float evaluation by the Lean driver vs the python function it came from;
      (b) the generated `sum` implementations and the time/x threading vs python; (c) the hand-over model run on the
      unit tree of every really solved sequence (which root hooks have an implementation is observed, the values are
-     identifiers) vs the public `__dict__` of every in / out profile of that tree; (d) the independent oracle below.
+     identifiers) vs the public `__dict__` of every in / out profile of that tree - for a sequence solved twice
+     (`H2`: `Handover.solveTwice` with the re-use policy the translator read from `init_solve`) the tree of the second solve;
+     (c') `Unit.init_solve` on histories of incoming profiles vs `Handover.initOut` (`I`); (d) the independent oracle below.
 
 The oracle (`check_tree`) is written from the property text and inspects only public attributes of solved units.
 """
@@ -23,7 +25,7 @@ from . import common  # noqa: F401  (silences the pyroll loggers)
 ID = "C06"
 LEAN_MODULES = ["PyrollProps.C06"]
 MODEL = "c06"
-MODEL_MODULES = ["PyrollModel.Gen.C06", "PyrollModel.HandoverDriver"]
+MODEL_MODULES = ["PyrollModel.Gen.C06", "PyrollModel.HandoverGen", "PyrollModel.HandoverDriver"]
 RULE = ("real pass sequences, built from a replayable spec and solved: 1-5 top-level units, flat or nested (depth <= 3), "
         "two-roll passes (6 groove families) and three-roll passes, transports (duration or length given, 18 % with two of "
         "length / duration / velocity given explicitly), cooling pipes, "
@@ -32,7 +34,12 @@ RULE = ("real pass sequences, built from a replayable spec and solved: 1-5 top-l
         "(none / a few / all readable hooks of the profile class: fills its hook cache), optionally a flow-stress or "
         "width (spreading) model registered as hook implementation "
         "(removed in `finally`); every unit and disk element of the solved tree is checked by the oracle and the whole "
-        "tree is compared with the Lean hand-over model; plus every generated formula x random environments. "
+        "tree is compared with the Lean hand-over model; 15 % of the sequences (and every corpus layout) are solved a SECOND "
+        "time, the same objects, on a changed billet (1-4 of temperature / density / heat capacity / material / length / "
+        "strain / t changed, flow stress changed / dropped / added, 0-2 entries removed, 0-2 new entries, size +-1.5 %; in "
+        "12 % of them the first profile lacks the flow stress, so the first solve is aborted and the second is the retry): "
+        "oracle on the second solve and model `solveTwice` against it; `Unit.init_solve` itself on generated histories of "
+        "incoming profiles and out-profile edits against `Handover.initOut`; plus every generated formula x random environments. "
         "non-trivial = the sequence solved, has >= 2 units and a positive incoming length; distinct by the spec.")
 ASSUMPTIONS = [
     "IEEE rounding and unconverged iterations: the theorems are exact over the reals at a consistent assignment; on "
@@ -73,10 +80,26 @@ SUMS = ["seq_duration", "seq_length", "seq_power"]
 ROTATION_CLASSIFIERS = {"rotated", "edged", "vertical", "mirrored"}
 
 
+# `Unit.init_solve` exists in two source forms: without and with an `else:` branch that hands the current incoming state
+# over to a RE-USED out profile (repair of property C05's finding "a re-used out profile kept the values of the first
+# incoming profile").  Translator, model and theorems cope with both.  While this is False the older form is accepted:
+# the theorems about the re-use branch are conditional on its presence, and what the second-solve oracle clause sees on
+# a source without the branch (stale values in re-used out profiles = C05's finding) is only counted.  Set it to True
+# once the repair is in /repo: from then on a source without the branch is a broken tie (translator gap; theorem
+# `C06.reuse_branch_as_required` stops building) and the clause reports violations with replays on any source form.
+REUSE_BRANCH_REQUIRED = True
+
+
 def translate(ctx):
     extra, info = c06_skeleton.emit(core.REPO, ctx.tie_breaks)
     extra += "\n/-- the implementations that are sums over the units of a sequence -/\n"
     extra += "def sumImpls : List (String × Impl) := [" + ", ".join(f'("{n}", {n})' for n in SUMS) + "]\n"
+    extra += ("\n/-- driver/props/c06.py `REUSE_BRANCH_REQUIRED`: must `Unit.init_solve` have the hand-over branch for a "
+              "re-used out profile? -/\n")
+    extra += f"def reuseRequired : Bool := {'true' if REUSE_BRANCH_REQUIRED else 'false'}\n"
+    if REUSE_BRANCH_REQUIRED and info["skeleton"].get("reuse") is None:
+        ctx.tie_breaks.append("translator: Unit.init_solve has no `else:` branch handing the incoming state over to a "
+                              "re-used out profile (required: REUSE_BRANCH_REQUIRED)")
     ctx.found = gen.emit_impl_module(ctx, ID, SELECTION, extra)
     ctx.skeleton = info
 
@@ -366,6 +389,58 @@ def gen_reads(rng, names):
     return sorted(rng.sample(names, min(len(names), rng.choice([1, 2, 4, 8, 16]))))
 
 
+ADDED_NAMES = ["batch", "heat_number", "surface_temperature", "thermal_conductivity"]
+
+
+def gen_again(rng, spec_in, model, three):
+    """the SAME sequence object is solved a second time on another billet: how the caller's second profile differs from
+    the first - some values changed, some entries removed, some added (-> `build_second_profile`)"""
+    ag = {"set": {}, "drop": []}
+    changed = {
+        "temperature": lambda: round(rng.uniform(900, 1300) + 273.15, 2),
+        "density": lambda: rng.choice([7.2e3, 7.85e3]),
+        "specific_heat_capacity": lambda: rng.choice([600, 720]),
+        "material": lambda: rng.choice([["C20", "steel"], "C45", ["X5CrNi18-10"]]),
+        "length": lambda: rng.choice([2, 0.5, round(rng.uniform(0.1, 10), 3)]),
+        "strain": lambda: rng.choice([0, 0.1, 0.45]),
+        "t": lambda: rng.choice([0, 7.25, 100]),
+    }
+    for k in rng.sample(sorted(changed), rng.randrange(1, 5)):
+        ag["set"][k] = changed[k]()
+    if spec_in.get("flow_stress", True):
+        r = rng.random()
+        if r < 0.5:
+            ag["set"]["flow_stress"] = rng.choice([80e6, 120e6])
+        elif r < 0.6 and model == "flow_stress":
+            ag["drop"].append("flow_stress")        # the registered model takes over
+    elif rng.random() < 0.5:
+        ag["set"]["flow_stress"] = rng.choice([80e6, 120e6])   # an explicit value now overrides the registered model
+    for k in rng.sample(["density", "specific_heat_capacity", "material"], rng.choice([0, 1, 1, 2])):
+        if k not in ag["set"]:
+            ag["drop"].append(k)
+    for k in rng.sample(ADDED_NAMES, rng.choice([0, 1, 1, 2])):
+        ag["set"][k] = rng.choice(["B-17", 3, 1200.5])
+    if rng.random() < 0.4:
+        ag["size"] = round(spec_in["size"] * rng.uniform(0.985, 1.015), 5)
+    return ag
+
+
+def build_second_profile(spec):
+    """the caller's profile of the second solve: the first one's construction with `again` applied"""
+    ag = spec["again"]
+    sin = dict(spec["in"])
+    if "size" in ag:
+        sin["size"] = ag["size"]
+    elif "size_factor" in ag:
+        sin["size"] = sin["size"] * ag["size_factor"]
+    ip = build_in_profile(sin)
+    for k, v in ag.get("set", {}).items():
+        setattr(ip, k, v)
+    for k in ag.get("drop", []):
+        ip.__dict__.pop(k, None)
+    return ip
+
+
 def gen_case(rng, hook_names=()):
     three = rng.random() < 0.2
     n = rng.choice([1, 2, 3, 3, 4, 5])
@@ -383,7 +458,23 @@ def gen_case(rng, hook_names=()):
     reads = gen_reads(rng, list(hook_names))
     if reads:
         spec_in["reads"] = reads
-    return {"in": spec_in, "units": units, "model": model}
+    spec = {"in": spec_in, "units": units, "model": model}
+    if rng.random() < AGAIN_SHARE:
+        spec["again"] = gen_again(rng, spec_in, model, three)
+        if rng.random() < 0.12 and model != "flow_stress":
+            # the first billet's description is incomplete (no flow stress): the first solve is aborted inside the first
+            # roll pass, the caller completes the profile and solves the same sequence again
+            spec_in["flow_stress"] = False
+            spec["again"]["set"]["flow_stress"] = 100e6
+            if "flow_stress" in spec["again"]["drop"]:
+                spec["again"]["drop"].remove("flow_stress")
+    return spec
+
+
+AGAIN_SHARE = 0.15
+N_QUICK = 330
+AGAIN_CORPUS = {"set": {"temperature": 1350.0, "length": 2, "t": 7.25, "batch": "B-17", "flow_stress": 80e6},
+                "drop": ["density"], "size_factor": 1.01}
 
 
 CORPUS = [
@@ -664,6 +755,57 @@ def check_tree(seq, prec_of, viol, count, root_names_of, given=None, returned=No
     walk(seq, "seq")
 
 
+def check_through(seq, root_names_of, viol, count, prefix=""):
+    """State is handed over UNCHANGED along the sequence: a unit (or disk element) delivers, of what it does not
+    compute itself (root hooks of its in / out profile), exactly the explicit values it received - none replaced by an
+    older one, none kept that was not received, none lost."""
+    def walk(u, path):
+        where = f"{path}:{type(u).__name__}"
+        ip, op = u.in_profile, u.out_profile
+        pi, po = _pub(ip), _pub(op)
+        own = set(root_names_of(type(ip))) | set(root_names_of(type(op)))
+        for k in sorted(set(pi) | set(po)):
+            if k in own:
+                continue
+            if k not in po:
+                viol(prefix + "value-not-handed-through", f"{where}: received explicit value {k!r} = {pi[k]!r} is not delivered")
+            elif k not in pi:
+                viol(prefix + "value-not-handed-through", f"{where}: delivers the explicit value {k!r} = {po[k]!r} which "
+                     f"it did not receive and does not compute")
+            elif not _same(pi[k], po[k]):
+                viol(prefix + "value-not-handed-through", f"{where}: received {k!r} = {pi[k]!r}, delivers {po[k]!r} "
+                     f"(not a root hook of its profiles)")
+        count(prefix + "through-unit-checked")
+        for i, sub in enumerate(_units_of(u)):
+            walk(sub, f"{path}.{i}")
+    walk(seq, "seq")
+
+
+def check_callers_values(seq, given, returned, all_root_names, viol, count, prefix=""):
+    """... and so what the caller hands in arrives everywhere: an explicit value of the caller's profile that no unit
+    computes (its name is no root hook at all: temperature, flow stress, material, a user's own entry) is, with that
+    very value, in every in and out profile of the solved tree and in the returned profile - and no profile holds such
+    an entry that the caller did not hand in."""
+    pg = _pub(given)
+    profs = [(f"profile #{i} of seq.profiles", q) for i, q in enumerate(seq.profiles)]
+    if returned is not None:
+        profs.append(("the returned profile", returned))
+    for where, q in profs:
+        pq = _pub(q)
+        for k, v in pg.items():
+            if k in all_root_names:
+                continue
+            if k not in pq:
+                viol(prefix + "callers-value-not-delivered", f"{where} lacks {k!r}; the caller handed in {v!r}")
+            elif not _same(v, pq[k]):
+                viol(prefix + "callers-value-not-delivered", f"{where} holds {k!r} = {pq[k]!r}; the caller handed in {v!r}")
+        for k, v in pq.items():
+            if k not in pg and k not in all_root_names:
+                viol(prefix + "callers-value-not-delivered", f"{where} holds {k!r} = {v!r}, which the caller did not hand "
+                     f"in and no unit computes")
+    count(prefix + "callers-values-checked")
+
+
 # ---------------------------------------------------------------------------------------------------------------
 # the model side: one `H` line per solved tree
 # ---------------------------------------------------------------------------------------------------------------
@@ -701,9 +843,15 @@ def _dict_tok(d):
 
 
 def model_line(seq, in_profile, root_list, gen_roots, rotators, cache=None):
-    """-> (line, expected trace [(in ids, out ids)] in the model's order, skipped reason or None).
+    """-> (`H` line, expected trace [(in ids, out ids)] in the model's order).
     `cache`: the hook cache the handed-over object had when it was handed over (name -> value)"""
-    ids = Ids()
+    extra_tok, body, expected = model_parts(seq, in_profile, root_list, gen_roots, rotators, cache, Ids())
+    return " ".join(["H", "_", extra_tok] + body), expected
+
+
+def model_parts(seq, in_profile, root_list, gen_roots, rotators, cache, ids):
+    """the unit tree as the hand-over model takes it -> (extra root hooks token, [dict, cache, unit tokens ...], expected);
+    `ids` is shared between the two solves of one `H2` line (equal values = equal identifiers across the solves)"""
 
     def owners(p):
         return [f"{h.owner.__qualname__}" for h in root_list if issubclass(type(p), h.owner)]
@@ -774,7 +922,7 @@ def model_line(seq, in_profile, root_list, gen_roots, rotators, cache=None):
     extra_tok = ",".join(f"{o}:{n}" for o, n in extra) or "-"
     start = {k: ids(v) for k, v in _pub(in_profile).items()}
     cached = {k: ids(v) for k, v in (cache or {}).items()}
-    return " ".join(["H", "_", extra_tok, _dict_tok(start), _dict_tok(cached)] + toks), (expected, all_roots - common_roots)
+    return extra_tok, [_dict_tok(start), _dict_tok(cached)] + toks, (expected, all_roots - common_roots)
 
 
 def parse_trace(line):
@@ -791,6 +939,34 @@ def parse_trace(line):
 
 
 # ---------------------------------------------------------------------------------------------------------------
+class SolveTimeout(BaseException):
+    """raised by the harness' alarm inside a `solve` call that exceeds SOLVE_LIMIT_S (BaseException: `_solve_subunits`
+    wraps `Exception`s only)"""
+
+
+SOLVE_LIMIT_S = [30.0]      # wall-clock limit of ONE solve call (a regular one takes 0.05 - 2 s); set per tier in `run`
+
+
+class time_limit:
+    """a sequence made pathological by a change of the code under test (nested iteration loops that no longer
+    converge: 100 x 100 x 100 bodies) must not stall the check: the solve is abandoned and counted"""
+
+    def __enter__(self):
+        import signal
+
+        def _raise(signum, frame):
+            raise SolveTimeout()
+        self.old = signal.signal(signal.SIGALRM, _raise)
+        signal.setitimer(signal.ITIMER_REAL, SOLVE_LIMIT_S[0])
+        return self
+
+    def __exit__(self, *a):
+        import signal
+        signal.setitimer(signal.ITIMER_REAL, 0)
+        signal.signal(signal.SIGALRM, self.old)
+        return False
+
+
 def solve_case(spec, count=None, reads=True, out=None):
     """build and solve; returns (sequence, in_profile, rotators) - exceptions of pyroll propagate.
     `out` (a dict) receives the profile `solve` returned."""
@@ -799,12 +975,38 @@ def solve_case(spec, count=None, reads=True, out=None):
         apply_reads(ip, spec["in"]["reads"], count)
     seq = build_unit({"type": "seq", "units": spec["units"]}, "S")
     if out is not None:     # the hook cache of the object that is handed over (an input of the hand-over model)
+        out["seq"] = seq
         out["cache"] = {n: getattr(ip, n) for n in sorted(type(ip).__hooks__) if ip.has_cached(n) and not ip.has_set(n)}
-    with RotatorCapture() as cap:
+    with RotatorCapture() as cap, time_limit():
         ret = seq.solve(ip)
     if out is not None:
         out["returned"] = ret
     return seq, ip, cap.by_pass
+
+
+def solve_again(seq, spec, out):
+    """the second solve of the same sequence object on `build_second_profile(spec)`; exceptions of pyroll propagate"""
+    ip2 = build_second_profile(spec)
+    with RotatorCapture() as cap, time_limit():
+        ret = seq.solve(ip2)
+    out["returned"] = ret
+    return ip2, cap.by_pass
+
+
+def reuse_branch_present(ctx):
+    """has `Unit.init_solve` of the tree under test the `else:` branch that hands the incoming state over to a re-used
+    out profile?  (what the translator read; read again when `translate` did not run in this context.)  None = unknown"""
+    info = getattr(ctx, "skeleton", None)
+    if info is not None and info.get("skeleton"):
+        sk = info["skeleton"]
+    else:
+        try:
+            sk = c06_skeleton.unit_skeleton(core.REPO)
+        except Exception:
+            return None
+    if sk.get("init_solve") == ["<missing>"]:
+        return None
+    return sk.get("reuse") is not None
 
 
 def _in_pyroll(ex):
@@ -828,6 +1030,9 @@ def check_reads_twin(spec, solved_seq, viol, count):
     prior reads raised inside pyroll."""
     try:
         twin, _, _ = solve_case(spec, reads=False)
+    except SolveTimeout:
+        count("reads-twin:abandoned:time-limit")
+        return
     except Exception as ex:
         rc = _root_cause(ex)
         if not _in_pyroll(rc):
@@ -864,19 +1069,46 @@ def _root_cause(ex):
     return ex
 
 
-def _examine(ctx, spec, twin, count):
-    """solve one spec and run the oracle on it -> (solved, [(key, what, replay)], model arguments or None).
+# keys of the second-solve clauses that fail on a source WITHOUT the hand-over branch for exactly the reason that is
+# property C05's finding (re-used out profiles keep what the first incoming profile handed over); see REUSE_BRANCH_REQUIRED
+BRANCH_KEYS = ("again-value-not-handed-through", "again-callers-value-not-delivered")
+
+
+def _examine(ctx, spec, twin, count, model=False):
+    """solve one spec (and, with `spec["again"]`, the same sequence object a second time on the changed profile) and run
+    the oracle -> dict(ok, found=[(key, what, replay)], got, line=(H line, expected) | None, line2=(H2 line, expected) | None).
     Must run inside `Registered(spec["model"])`."""
     from pyroll.core import root_hooks
     twin = twin and bool(spec["in"].get("reads"))
     robj = {"spec": spec, "twin": True} if twin else {"spec": spec}
     found = []
     got = {}
+    res = {"ok": False, "found": found, "got": got, "line": None, "line2": None}
+    model = model and getattr(ctx, "model_available", True)
+    gen_roots = getattr(ctx, "gen_roots", None) or []
+    branch = getattr(ctx, "reuse_branch", None)
+    strict = REUSE_BRANCH_REQUIRED or branch is not False
 
     def viol(key, what):
         found.append((key, what, robj))
+
+    root_list = list(root_hooks)
+    all_root_names = {h.name for h in root_list}
+
+    def root_names_of(cls):
+        return [h.name for h in root_list if issubclass(cls, h.owner)]
+
+    def prec_of(u):
+        return float(u.iteration_precision)
+    ids = Ids()
+    parts1 = None
     try:
         seq, ip, rot = solve_case(spec, count, out=got)
+        res["ok"] = True
+    except SolveTimeout:
+        count("solve-abandoned:time-limit")
+        ctx.last_solve_error = f"no result within {SOLVE_LIMIT_S[0]} s"
+        return res
     except Exception as ex:
         rc = _root_cause(ex)
         if not _in_pyroll(rc):
@@ -885,62 +1117,102 @@ def _examine(ctx, spec, twin, count):
         ctx.last_solve_error = f"{type(rc).__name__}: {str(rc)[:200]}"
         if twin:
             check_reads_twin(spec, None, viol, count)
-        return False, found, None, got
-    root_list = list(root_hooks)
+        seq = got.get("seq")
+    if res["ok"]:
+        check_tree(seq, prec_of, viol, count, root_names_of, given=ip, returned=got.get("returned"))
+        check_callers_values(seq, ip, got.get("returned"), all_root_names, viol, count)
+        if branch:
+            # with the hand-over branch every init_solve (also those of the outer iterations of a nested sequence)
+            # refreshes what the out profile was handed: exact on every solve
+            check_through(seq, root_names_of, viol, count)
+        if twin:
+            check_reads_twin(spec, seq, viol, count)
+        if model:
+            try:
+                parts1 = model_parts(seq, ip, root_list, gen_roots, rot, got.get("cache"), ids)
+                res["line"] = (" ".join(["H", "_", parts1[0]] + parts1[1]), parts1[2])
+            except LookupError as ex:
+                count("model-skipped:" + str(ex)[:40])
+    retry = spec["in"].get("flow_stress") is False and "flow_stress" in spec.get("again", {}).get("set", {})
+    if spec.get("again") and seq is not None and (res["ok"] or retry):
+        # ---- the same sequence object solved again on the changed profile ------------------------------------------
+        got2 = {}
 
-    def root_names_of(cls):
-        return [h.name for h in root_list if issubclass(cls, h.owner)]
-
-    def prec_of(u):
-        return float(u.iteration_precision)
-    check_tree(seq, prec_of, viol, count, root_names_of, given=ip, returned=got.get("returned"))
-    if twin:
-        check_reads_twin(spec, seq, viol, count)
-    return True, found, (seq, ip, root_list, rot), got
+        def viol2(key, what):
+            key = "again-" + key
+            if key in BRANCH_KEYS and not strict:
+                # a source without the hand-over branch: stale values in re-used out profiles are property C05's finding
+                count("second-solve:" + key + ":counted-only(source without hand-over branch)")
+                return
+            found.append((key, "second solve of the same sequence, " + ("after a first solve that raised, " if not res["ok"] else "")
+                          + f"on the profile changed by {spec['again']}: " + what, robj))
+        try:
+            ip2, rot2 = solve_again(seq, spec, got2)
+        except SolveTimeout:
+            count("second-solve:abandoned:time-limit")
+            return res
+        except Exception as ex:
+            rc = _root_cause(ex)
+            if not _in_pyroll(rc):
+                raise
+            count("second-solve:raised:" + type(rc).__name__ + ("" if res["ok"] else ":after-aborted-first"))
+            return res
+        count("second-solve:solved" + ("" if res["ok"] else ":after-aborted-first"))
+        check_tree(seq, prec_of, viol2, lambda k, n=1: None, root_names_of, given=ip2, returned=got2.get("returned"))
+        check_callers_values(seq, ip2, got2.get("returned"), all_root_names, viol2, count, prefix="")
+        check_through(seq, root_names_of, viol2, count, prefix="")
+        count("second-solve:checked")
+        if model and parts1 is not None:
+            try:
+                parts2 = model_parts(seq, ip2, root_list, gen_roots, rot2, {}, ids)
+                res["line2"] = (" ".join(["H2", "_", parts1[0]] + parts1[1] + ["|"] + parts2[1]), parts2[2])
+            except LookupError as ex:
+                count("model-skipped:" + str(ex)[:40])
+        elif model:
+            count("model-skipped:second solve after an aborted first one")
+    return res
 
 
 def run_case(ctx, spec, lines, pending, twin=False):
-    """solve one spec, run the oracle, queue the model line. Returns True if the sequence solved.
+    """solve one spec, run the oracle, queue the model lines. Returns True if the sequence solved.
     `twin`: additionally solve the same spec without the prior reads and compare (`check_reads_twin`)."""
     with Registered(spec["model"]):
-        ok, found, margs, got = _examine(ctx, spec, twin, ctx.count)
+        res = _examine(ctx, spec, twin, ctx.count, model=True)
+        found = res["found"]
         if found and spec["in"].get("reads"):
             # shrink the replay: does the same kind of failure show without any prior read, or with only those reads
             # that left a value in the hook cache?
             keys = {k for (k, _, _) in found}
-            cached = sorted(got.get("cache", {}))
+            cached = sorted(res["got"].get("cache", {}))
             for reads in ([], cached):
                 if reads == spec["in"]["reads"]:
                     continue
                 smaller = dict(spec, **{"in": {k: v for k, v in spec["in"].items() if k != "reads"}})
                 if reads:
                     smaller["in"]["reads"] = reads
-                _, found2, _, _ = _examine(ctx, smaller, twin, lambda *a: None)
+                found2 = _examine(ctx, smaller, twin, lambda *a: None)["found"]
                 if keys & {k for (k, _, _) in found2}:
                     found = [f for f in found2 if f[0] in keys] + [f for f in found if f[0] not in {k for (k, _, _) in found2}]
                     break
         for (key, what, robj) in found:
             ctx.violation(key, what, robj)
-        if ok and getattr(ctx, "model_available", True):
-            seq, ip, root_list, rot = margs
-            gen_roots = getattr(ctx, "gen_roots", None) or []
-            try:
-                line, expected = model_line(seq, ip, root_list, gen_roots, rot, got.get("cache"))
-                lines.append(line)
-                pending.append((spec, expected))
-            except LookupError as ex:
-                ctx.count("model-skipped:" + str(ex)[:40])
-    return ok
+        for tag, ln in (("", res["line"]), ("second solve: ", res["line2"])):
+            if ln is not None:
+                lines.append(ln[0])
+                pending.append((spec, ln[1], tag))
+    return res["ok"]
 
 
 def compare_model(ctx, out_lines, pending):
-    for line, (spec, (expected, volatile)) in zip(out_lines, pending):
+    for line, (spec, (expected, volatile), tag) in zip(out_lines, pending):
+        ctx.count("model-lines:" + ("H2(second solve)" if tag else "H"))
         got = parse_trace(line)
         if got is None:
-            ctx.disagreement(f"hand-over model answers {line[:80]!r} for a sequence the implementation solved", {"spec": spec})
+            ctx.disagreement(f"hand-over model answers {line[:80]!r} for a sequence the implementation solved"
+                             + (" twice" if spec.get("again") else ""), {"spec": spec})
             continue
         if len(got) != len(expected):
-            ctx.disagreement(f"hand-over model has {len(got)} units, implementation {len(expected)}", {"spec": spec})
+            ctx.disagreement(tag + f"hand-over model has {len(got)} units, implementation {len(expected)}", {"spec": spec})
             continue
         bad = None
         for i, ((gi, go), (ei, eo, ci, co)) in enumerate(zip(got, expected)):
@@ -962,7 +1234,7 @@ def compare_model(ctx, out_lines, pending):
             if bad:
                 break
         if bad:
-            ctx.disagreement("hand-over model vs implementation: " + bad, {"spec": spec})
+            ctx.disagreement(tag + "hand-over model vs implementation: " + bad, {"spec": spec})
         else:
             ctx.validated()
 
@@ -994,11 +1266,20 @@ def run(ctx):
         ctx.tie_breaks.append(f"root hook list at run time {runtime} differs from the one read from pyroll/core/__init__.py")
 
     # ---- (c) solved sequences: oracle + hand-over model -------------------------------------------------------------
+    SOLVE_LIMIT_S[0] = 30.0 if ctx.tier == "quick" else 120.0
+    ctx.reuse_branch = reuse_branch_present(ctx)
+    ctx.notes["init_solve_reuse_branch"] = {True: "present (a re-used out profile gets the incoming state handed over)",
+                                            False: "absent (older source form: a re-used out profile is left as it is); "
+                                                   + ("REQUIRED" if REUSE_BRANCH_REQUIRED else "tolerated: the second-solve "
+                                                      "clauses " + ", ".join(BRANCH_KEYS) + " are only counted"),
+                                            None: "unknown (init_solve left the translatable subset)"}[ctx.reuse_branch]
     lines, pending = [], []
     solved = 0
     hook_names = profile_hook_names()
-    # every corpus layout as it is and once more after the caller has looked at every hook of the incoming profile
-    corpus = list(CORPUS) + [dict(spec, **{"in": dict(spec["in"], reads=hook_names)}) for spec in CORPUS]
+    # every corpus layout as it is - and the same sequence object solved again on a changed billet -, and once more after
+    # the caller has looked at every hook of the incoming profile
+    corpus = [dict(spec, again=AGAIN_CORPUS) for spec in CORPUS] \
+        + [dict(spec, **{"in": dict(spec["in"], reads=hook_names)}) for spec in CORPUS]
     for spec in corpus:
         ok = run_case(ctx, spec, lines, pending, twin=True)
         ctx.case(["corpus", spec], nontrivial=ok)
@@ -1009,7 +1290,7 @@ def run(ctx):
             ctx.violation("known-good-sequence-does-not-solve", "a sequence that solves on the unchanged tree raises "
                           + getattr(ctx, "last_solve_error", "?"), {"spec": spec})
     # (the extended search after a broken tie multiplies budgets by 5: 600 / 6000 sequences)
-    n = ctx.budget(330, 4500) if not ctx.extended else ctx.budget(120, 1200)
+    n = ctx.budget(N_QUICK, 4500) if not ctx.extended else ctx.budget(120, 1200)
     for i in range(n):
         spec = gen_case(rng, hook_names)
         ok = run_case(ctx, spec, lines, pending, twin=rng.random() < 0.12)
@@ -1020,6 +1301,12 @@ def run(ctx):
             ctx.count("layout:nested" if any(u["type"] == "seq" for u in spec["units"]) else "layout:flat")
             ctx.count("model:" + spec["model"])
             ctx.count("in:" + spec["in"]["kind"])
+            if spec.get("again"):
+                ctx.count("again:generated")
+                for k in spec["again"]["set"]:
+                    ctx.count("again:changed-or-added:" + k)
+                for k in spec["again"]["drop"]:
+                    ctx.count("again:removed:" + k)
             nr = len(spec["in"].get("reads", []))
             ctx.count("prior-reads:" + ("none" if nr == 0 else "all" if nr == len(hook_names) else "some"))
             for u in flat:
@@ -1032,9 +1319,79 @@ def run(ctx):
                 ctx.sample(spec)
     ctx.notes["sequences_solved"] = solved
     excluded_point(ctx)
-    if lines and model:
-        out = ctx.lean_model(MODEL, lines)
-        compare_model(ctx, out, pending)
+    if model:
+        ilines, iexpect = init_solve_histories(ctx)
+        out = ctx.lean_model(MODEL, lines + ilines)
+        compare_model(ctx, out[:len(lines)], pending)
+        compare_init_solve(ctx, out[len(lines):], iexpect)
+
+
+def init_solve_histories(ctx):
+    """(K) the translated `init_solve` policy for the out profile (`Handover.initOut genReuse`, `I` lines) against the
+    real `Unit.init_solve`, directly: a transport / cooling pipe / sequence is initialised several times in a row with
+    generated incoming profiles (entries changed, removed, added, private ones); between the calls the out profile is
+    treated as a solve (root hook results written) or a user (entries deleted, stray entries) would.  Compared: the public
+    entries of the out profile after every call, in order."""
+    from pyroll.core import Transport, CoolingPipe, PassSequence, Profile, root_hooks
+    rng = ctx.rng
+    root_list = list(root_hooks)
+    gen_roots = getattr(ctx, "gen_roots", None) or []
+    extra = [(h.owner.__qualname__, h.name) for h in root_list][len(gen_roots):]
+    extra_tok = ",".join(f"{o}:{n}" for o, n in extra) or "-"
+    names = ["temperature", "flow_stress", "material", "density", "batch", "cross_section", "classifiers", "strain",
+             "length", "velocity", "width", "x", "filling_ratio"]
+    values = [1.0, 2.5, 1473.15, 0, "C45", "B-17", 7.5e3]
+    makers = [lambda: Transport(duration=1), lambda: CoolingPipe(duration=1, inner_radius=0.05, coolant_volume_flux=1e-3),
+              lambda: PassSequence([Transport(duration=1)])]
+    lines, expect = [], []
+    for _ in range(ctx.budget(30, 400)):
+        u = rng.choice(makers)()
+        ids = Ids()
+        hist = []
+        for step in range(rng.randrange(2, 5)):
+            attrs = {k: rng.choice(values) for k in rng.sample(names, rng.randrange(0, len(names)))}
+            if rng.random() < 0.5:
+                attrs["t"] = rng.choice(values[:4])
+            if rng.random() < 0.3:
+                attrs["_secret"] = 5
+            prof = Profile(**attrs)
+            prev = None if u.out_profile is None else dict(u.out_profile.__dict__)
+            u.init_solve(prof)
+            op = u.out_profile
+            owners = list(dict.fromkeys(h.owner.__qualname__ for h in root_list if issubclass(type(op), h.owner)))
+            tok = lambda d: _dict_tok({k: ids(v) for k, v in d.items()})    # noqa: E731
+            lines.append(" ".join(["I", "_", extra_tok, ",".join(owners) or "-", "none" if prev is None else tok(prev),
+                                   tok(prof.__dict__)]))
+            hist.append({"incoming": {k: repr(v) for k, v in _pub(prof).items()},
+                         "out_before": None if prev is None else {k: repr(v) for k, v in prev.items() if not k.startswith("_")}})
+            expect.append(([(k, ids(v)) for k, v in op.__dict__.items() if not k.startswith("_")],
+                           {"unit": type(u).__name__, "init_solve_history": list(hist)}))
+            ctx.count("init_solve:" + ("first" if prev is None else "re-use"))
+            # what happens to the out profile until the next init_solve
+            roots = [h.name for h in root_list if issubclass(type(op), h.owner)]
+            for k in rng.sample(roots, rng.randrange(0, len(roots) + 1)):
+                setattr(op, k, rng.choice(values))
+            pub_names = [k for k in op.__dict__ if not k.startswith("_")]
+            if pub_names and rng.random() < 0.4:
+                op.__dict__.pop(rng.choice(pub_names))
+            if rng.random() < 0.3:
+                op.stray = rng.choice(values)
+    return lines, expect
+
+
+def compare_init_solve(ctx, out_lines, expect):
+    for line, (exp, robj) in zip(out_lines, expect):
+        try:
+            got = [] if line.strip() == "-" else [(kv.split("=")[0], int(kv.split("=")[1])) for kv in line.strip().split(",")]
+        except (ValueError, IndexError):
+            got = None
+        if got is not None:
+            got = [(k, v) for (k, v) in got if not k.startswith("_")]
+        if got == exp:
+            ctx.validated()
+        else:
+            ctx.disagreement(f"init_solve: public entries of the out profile {exp} (implementation) vs {got if got is not None else line[:80]!r} "
+                             f"(Handover.initOut with the generated re-use policy)", robj)
 
 
 def _flat(units):
@@ -1122,6 +1479,9 @@ def excluded_point(ctx):
     ):
         try:
             seq, ip, _ = solve_case(spec)
+        except SolveTimeout:
+            ctx.count(f"excluded-point:{label}:abandoned:time-limit")
+            continue
         except Exception as ex:
             rc = _root_cause(ex)
             ctx.count(f"excluded-point:{label}:raises-{type(rc).__name__}")
@@ -1142,4 +1502,5 @@ def replay(ctx, data):
     lines, pending = [], []
     ctx.gen_roots = getattr(ctx, "skeleton", {}).get("root_hooks", []) if getattr(ctx, "skeleton", None) else []
     ctx.model_available = False
+    ctx.reuse_branch = reuse_branch_present(ctx)
     run_case(ctx, spec, lines, pending, twin=bool(r.get("twin")))
